@@ -62,7 +62,7 @@ TOL_SCALE_GAUSS = 5e-3  # rescaling, noise-free sources (zero-residual fits) [4.
 def plan(tier):
     if tier == 'thorough':
         return dict(shards=16, cases=12000, timeout=2400, budget_s=600)
-    return dict(shards=8, cases=600, timeout=600, budget_s=70)
+    return dict(shards=8, cases=520, timeout=600, budget_s=58)
 
 
 def selftest():
@@ -132,6 +132,38 @@ class PickyCom:
 # ----------------------------------------------------------------------
 # helpers
 # ----------------------------------------------------------------------
+LAYOUTS = ['C', 'C', 'C', 'C', 'F', 'strided', 'offset', 'negstride', 'bigendian']
+_LAY = {'kind': 'C'}          # memory layout used for every array handed to the library in the current case
+
+
+def _layout(arr, kind=None):
+    """Same values, different memory layout / byte order (fresh memory every time)."""
+    kind = _LAY['kind'] if kind is None else kind
+    if arr is None:
+        return None
+    a = np.asarray(arr)
+    if a.ndim != 2 or kind == 'C':
+        return np.array(a, copy=True, order='C')
+    ny, nx = a.shape
+    if kind == 'F':
+        return np.array(a, copy=True, order='F')
+    if kind == 'strided':
+        big = np.zeros((2 * ny, 2 * nx), a.dtype)
+        v = big[::2, ::2]
+        v[...] = a
+        return v
+    if kind == 'offset':
+        big = np.zeros((ny + 3, nx + 2), a.dtype)
+        v = big[2:2 + ny, 1:1 + nx]
+        v[...] = a
+        return v
+    if kind == 'negstride':
+        return np.array(a[::-1, ::-1], copy=True)[::-1, ::-1]
+    if kind == 'bigendian':
+        return a.astype(a.dtype.newbyteorder('>'))
+    raise ValueError(kind)
+
+
 class _FitBlowUp(Exception):
     """The least-squares fitter inside centroid_1dg/2dg raised on finite input data."""
 
@@ -146,11 +178,11 @@ def _call(func, data, _log=None, **kw):
     call warned that an iterative fit did not converge / was unsuccessful."""
     kw2 = {}
     for k, v in kw.items():
-        kw2[k] = v.copy() if isinstance(v, np.ndarray) else v
+        kw2[k] = _layout(v) if isinstance(v, np.ndarray) else v
     with warnings.catch_warnings(record=True) as wl:
         warnings.simplefilter('always')
         try:
-            out = np.asarray(func(np.array(data, copy=True), **kw2), dtype=float)
+            out = np.asarray(func(_layout(data), **kw2), dtype=float)
         except ValueError as exc:
             if (getattr(func, '__name__', '') in ('centroid_1dg', 'centroid_2dg') and 'infs or NaNs' in str(exc)
                     and core.exc_location(exc) is not None):
@@ -273,10 +305,16 @@ def _run_com_def(case):
         shape = (int(rng.integers(3, 26)),)
     elif r < 0.2:
         shape = tuple(int(v) for v in rng.integers(2, 7, size=3))
+    elif r < 0.27:
+        shape = (1, int(rng.integers(2, 40))) if rng.random() < 0.5 else (int(rng.integers(2, 40)), 1)
+        case.note('axis_shape_1xN')
     else:
         shape = (int(rng.integers(3, 26)), int(rng.integers(3, 26)))
-    kind = str(rng.choice(['pos', 'int', 'mixed', 'source', 'nonfinite', 'sparse']))
-    if kind == 'pos':
+    kind = str(rng.choice(['pos', 'int', 'mixed', 'source', 'nonfinite', 'sparse', 'constant']))
+    if kind == 'constant':
+        data = np.full(shape, float(rng.choice([1.0, 7.5, 0.0])))
+        case.note('axis_degenerate_constant')
+    elif kind == 'pos':
         data = rng.uniform(0.0, 10.0, size=shape)
     elif kind == 'int':
         data = rng.integers(0, 6, size=shape)               # integer dtype
@@ -306,12 +344,16 @@ def _run_com_def(case):
     mask = None
     if mform in ('bool', 'int'):
         mask = rng.random(shape) < rng.choice([0.1, 0.4, 0.8])
+        if rng.random() < 0.05:
+            mask[...] = True
+            case.note('axis_degenerate_all_masked')
     case.params = dict(fn='centroid_com', shape=list(shape), kind=kind, mask=mform, magnitude=_mag_of(data))
     case.digest = core.arr_digest(data, mask) + 'cd'
     mech = {'cls': case.cls, 'fn': 'centroid_com', 'ndim': len(shape), 'kind': kind}
 
     exp, cond = ref.com_reference(data, mask)
     d_in = np.array(data, copy=True)
+    data = _layout(data)
     with warnings.catch_warnings():
         warnings.simplefilter('ignore')
         if mform == 'none':
@@ -319,9 +361,9 @@ def _run_com_def(case):
         elif mform == 'nomask':
             obs = centroid_com(data, mask=np.ma.nomask)
         elif mform == 'int':
-            obs = centroid_com(data, mask=mask.astype(int))
+            obs = centroid_com(data, mask=_layout(mask.astype(int)))
         else:
-            obs = centroid_com(data, mask=mask.copy())
+            obs = centroid_com(data, mask=_layout(mask))
     obs = np.asarray(obs)
     case.check(core.exact(data, d_in), 'inputs_unchanged', mech)
     if not np.isfinite(cond):
@@ -926,8 +968,8 @@ def _run_gauss_rel(case):
             b = base if base is not None else _call(func, data, **kwm)
             with warnings.catch_warnings():
                 warnings.simplefilter('ignore')
-                kw2 = {k: v.copy() for k, v in kw.items()}
-                obs = np.asarray(func(np.ma.MaskedArray(data.copy(), mask.copy()), **kw2))
+                kw2 = {k: _layout(v) for k, v in kw.items()}
+                obs = np.asarray(func(np.ma.MaskedArray(_layout(data), _layout(mask)), **kw2))
             case.close(obs, b, f'gauss{fname}_maskedarray_equals_mask_kw', mech=mech)
             n += 1
     case.nontrivial = n > 0
@@ -1049,6 +1091,7 @@ def _run_sources(case):
     # error map with gradients and structure: a wrong error cutout changes the answer
     error = (1.0 + rng.uniform(0.02, 0.3) * xx + rng.uniform(0.02, 0.3) * yy
              + rng.uniform(0, 2.0, size=data.shape)) * (mag if rng.random() < 0.6 else 1.0)
+    data, error, mask = _layout(data), _layout(error), _layout(mask)
     extra = {}
     cls = case.cls
     if cls == 'src_com':
@@ -1119,13 +1162,39 @@ def _run_sources(case):
 
     def run(xpos, ypos, factor=None):
         kw = dict(fkw)
-        kw.update({k: (v.copy() if isinstance(v, np.ndarray) else v) for k, v in extra.items()})
-        d_in = data.copy() if factor is None else data * factor
+        kw.update({k: (_layout(v) if isinstance(v, np.ndarray) else v) for k, v in extra.items()})
+        d_in = _layout(data) if factor is None else _layout(data * factor)
+        # call forms of the positions and the box
+        if np.ndim(xpos) == 1:
+            xpos, ypos = pos_form(xpos), pos_form(ypos)
+        if 'box_size' in kw and not isinstance(kw['box_size'], (int, np.integer)):
+            kw['box_size'] = box_form(kw['box_size'])
+        elif 'box_size' in kw and forms['box'] == 'np.int64':
+            kw['box_size'] = np.int64(kw['box_size'])
+        if forms['scalars'] == 'numpy':
+            for k_ in ('xpeak', 'ypeak'):
+                if kw.get(k_) is not None:
+                    kw[k_] = np.float64(kw[k_])
+            for k_ in ('fit_boxsize', 'search_boxsize'):
+                if isinstance(kw.get(k_), int):
+                    kw[k_] = np.int64(kw[k_])
         with warnings.catch_warnings():
             warnings.simplefilter('ignore')
-            xo, yo = centroid_sources(d_in, xpos, ypos, mask=None if mask is None else mask.copy(),
+            xo, yo = centroid_sources(d_in, xpos, ypos, mask=_layout(mask),
                                       centroid_func=func, **kw)
         return np.asarray(xo, float), np.asarray(yo, float)
+
+    forms = {'pos': str(rng.choice(['array', 'array', 'list', 'tuple'])),
+             'box': str(rng.choice(['tuple', 'list', 'array', 'np.int64'])),
+             'scalars': str(rng.choice(['python', 'python', 'numpy']))}
+    for k_, v_ in forms.items():
+        case.note(f'axis_form_{k_}_{v_}')
+
+    def pos_form(v):
+        return v.tolist() if forms['pos'] == 'list' else (tuple(v.tolist()) if forms['pos'] == 'tuple' else v)
+
+    def box_form(b):
+        return list(b) if forms['box'] == 'list' else (np.array(b) if forms['box'] == 'array' else tuple(b))
 
     def cut_of(xv, yv):
         return ref.cutout_reference(data.shape, fp, float(xv), float(yv), mask)
@@ -1217,6 +1286,8 @@ def _run_sources(case):
 
 
 def run_case(case):
+    _LAY['kind'] = str(case.rng.choice(LAYOUTS))
+    case.note('axis_layout_' + _LAY['kind'])
     try:
         _dispatch(case)
     except _FitBlowUp as exc:
